@@ -367,10 +367,16 @@ func conjuncts(e ast.Expr, op token.Token) []ast.Expr {
 	return []ast.Expr{e}
 }
 
-// c03QueryLoopShape: the function clamps against QueryMaxLimit, loops while a counter is positive and no error
+// c03QueryLoopShape (helpers of the package followed): the function clamps against QueryMaxLimit, loops while a counter is positive and no error
 // occurred, and decides the cache flag as `WaitTimeout > 0 || <clamped> != <requested Limit>` (operands in any order).
-func c03QueryLoopShape(fd *ast.FuncDecl) (clamp, loop, cache bool) {
-	ast.Inspect(fd.Body, func(n ast.Node) bool {
+func c03QueryLoopShape(p *c03pkg, fd *ast.FuncDecl) (clamp, loop, cache, mentionsMax bool) {
+	p.walk(fd.Body, func(n ast.Node) bool {
+		if se, ok := n.(*ast.SelectorExpr); ok && se.Sel.Name == "QueryMaxLimit" {
+			mentionsMax = true
+		}
+		if id, ok := n.(*ast.Ident); ok && id.Name == "QueryMaxLimit" {
+			mentionsMax = true
+		}
 		switch s := n.(type) {
 		case *ast.IfStmt:
 			if be, ok := s.Cond.(*ast.BinaryExpr); ok {
@@ -486,10 +492,11 @@ func c03NextLeavesWindow(p *c03pkg, fd *ast.FuncDecl) bool {
 
 // c03ContinuationOffsetZero: the request a query function hands back as continuation (argument of writeQueryRequest, or
 // the value stored into <x>.NextQueryRequest) carries Offset 0: it is a QueryRequest literal without an Offset key (or with
-// the literal 0), directly or through a local variable initialised with such a literal; or it is another request value
-// (e.g. the served request itself) whose Offset field is unconditionally set to the literal 0 at the top level of the
-// function. found=false: no continuation expression was recognised (unknown shape).
-func c03ContinuationOffsetZero(fd *ast.FuncDecl) (ok, found bool) {
+// the literal 0) — directly, through a local variable initialised with such a literal, or as the result of a helper of the
+// same package all of whose `return`s are such expressions —; or it is another request value (e.g. the served request
+// itself) whose Offset field is unconditionally set to the literal 0 at the top level of the function. found=false: no
+// continuation expression was recognised (unknown shape).
+func c03ContinuationOffsetZero(p *c03pkg, fd *ast.FuncDecl) (ok, found bool) {
 	var conts []ast.Expr
 	ast.Inspect(fd.Body, func(n ast.Node) bool {
 		switch x := n.(type) {
@@ -509,6 +516,20 @@ func c03ContinuationOffsetZero(fd *ast.FuncDecl) (ok, found bool) {
 	if len(conts) == 0 {
 		return false, false
 	}
+	ok = true
+	for _, c := range conts {
+		good, known := c03ReqExprOffsetZero(p, fd, c, 3)
+		if !known {
+			return false, false
+		}
+		ok = ok && good
+	}
+	return ok, true
+}
+
+// c03ReqExprOffsetZero: does expression e, evaluated inside fd, denote a request with Offset 0? known=false: shape not
+// recognised.
+func c03ReqExprOffsetZero(p *c03pkg, fd *ast.FuncDecl, e ast.Expr, depth int) (good, known bool) {
 	strip := func(e ast.Expr) ast.Expr {
 		for {
 			switch x := e.(type) {
@@ -523,64 +544,84 @@ func c03ContinuationOffsetZero(fd *ast.FuncDecl) (ok, found bool) {
 			}
 		}
 	}
-	litOK := func(cl *ast.CompositeLit) bool {
+	litOK := func(cl *ast.CompositeLit) (bool, bool) {
 		for _, el := range cl.Elts {
 			kv, isKV := el.(*ast.KeyValueExpr)
 			if !isKV {
-				return false // positional literal: cannot tell
+				return false, false // positional literal: cannot tell
 			}
 			if id, isId := kv.Key.(*ast.Ident); isId && id.Name == "Offset" {
 				if bl, isLit := kv.Value.(*ast.BasicLit); !isLit || bl.Value != "0" {
-					return false
+					return false, true
 				}
 			}
 		}
-		return true
+		return true, true
 	}
-	// local definitions `x := <lit>` / `x := &<lit>` and top-level `x.Offset = 0`
-	defs := map[string]*ast.CompositeLit{}
-	zeroed := map[string]bool{}
-	ast.Inspect(fd.Body, func(n ast.Node) bool {
-		as, isAs := n.(*ast.AssignStmt)
-		if !isAs || len(as.Lhs) != 1 || len(as.Rhs) != 1 {
-			return true
+	switch x := strip(e).(type) {
+	case *ast.CompositeLit:
+		return litOK(x)
+	case *ast.CallExpr:
+		name := calleeName(x)
+		if depth == 0 || len(p.funcs[name]) != 1 {
+			return false, false
 		}
-		if id, isId := as.Lhs[0].(*ast.Ident); isId {
-			if cl, isCl := strip(as.Rhs[0]).(*ast.CompositeLit); isCl {
-				defs[id.Name] = cl
+		if se, isSel := x.Fun.(*ast.SelectorExpr); isSel {
+			if id, isId := se.X.(*ast.Ident); isId && id.Obj == nil {
+				return false, false // pkg.F of another package
 			}
 		}
-		return true
-	})
-	for _, st := range fd.Body.List {
-		if as, isAs := st.(*ast.AssignStmt); isAs && len(as.Lhs) == 1 && len(as.Rhs) == 1 {
-			if se, isSel := as.Lhs[0].(*ast.SelectorExpr); isSel && se.Sel.Name == "Offset" {
-				if id, isId := se.X.(*ast.Ident); isId {
-					if bl, isLit := as.Rhs[0].(*ast.BasicLit); isLit && bl.Value == "0" {
-						zeroed[id.Name] = true
+		h := p.funcs[name][0]
+		good, known, any := true, true, false
+		ast.Inspect(h.Body, func(n ast.Node) bool {
+			if _, isLit := n.(*ast.FuncLit); isLit {
+				return false
+			}
+			if rs, isRet := n.(*ast.ReturnStmt); isRet && len(rs.Results) >= 1 {
+				any = true
+				g, k := c03ReqExprOffsetZero(p, h, rs.Results[0], depth-1)
+				good, known = good && g, known && k
+			}
+			return true
+		})
+		if !any {
+			return false, false
+		}
+		return good, known
+	case *ast.Ident:
+		// a local initialised with a literal (or a helper call), or a request value zeroed at the top level of fd
+		var def ast.Expr
+		ast.Inspect(fd.Body, func(n ast.Node) bool {
+			as, isAs := n.(*ast.AssignStmt)
+			if !isAs || len(as.Lhs) != 1 || len(as.Rhs) != 1 {
+				return true
+			}
+			if id, isId := as.Lhs[0].(*ast.Ident); isId && id.Name == x.Name {
+				switch strip(as.Rhs[0]).(type) {
+				case *ast.CompositeLit, *ast.CallExpr:
+					def = as.Rhs[0]
+				}
+			}
+			return true
+		})
+		if def != nil {
+			if g, k := c03ReqExprOffsetZero(p, fd, def, depth); k {
+				return g, true
+			}
+		}
+		for _, st := range fd.Body.List {
+			if as, isAs := st.(*ast.AssignStmt); isAs && len(as.Lhs) == 1 && len(as.Rhs) == 1 {
+				if se, isSel := as.Lhs[0].(*ast.SelectorExpr); isSel && se.Sel.Name == "Offset" {
+					if id, isId := se.X.(*ast.Ident); isId && id.Name == x.Name {
+						if bl, isLit := as.Rhs[0].(*ast.BasicLit); isLit && bl.Value == "0" {
+							return true, true
+						}
 					}
 				}
 			}
 		}
+		// a request value that is handed back without its Offset being cleared
+		return false, true
 	}
-	ok = true
-	for _, c := range conts {
-		switch x := strip(c).(type) {
-		case *ast.CompositeLit:
-			if !litOK(x) {
-				ok = false
-			}
-		case *ast.Ident:
-			if cl, has := defs[x.Name]; has {
-				if !litOK(cl) {
-					ok = false
-				}
-			} else if !zeroed[x.Name] {
-				ok = false
-			}
-		default:
-			ok = false
-		}
-	}
-	return ok, true
+	return false, false
 }
